@@ -177,6 +177,10 @@ class HistogramBase(abc.ABC):
         self._meta_data = kwargs.copy()
         self.axis_names = tuple(axis_names or self.default_axis_names)
 
+    # Let numpy scalars on the left side (np.float64(2) * h) defer to __rmul__ & co.
+    # instead of treating the histogram as a plain array of frequencies.
+    __array_priority__ = 100
+
     # "Protected" attributes
     _binnings: List[BinningBase]
     _frequencies: np.ndarray
